@@ -90,7 +90,9 @@ impl World {
         let mut kinds = Vec::new();
         loop {
             let mut buf: Vec<DelayedAction> = Vec::with_capacity(16);
-            let n = self.delayed.recv_many(&mut buf).now_or_never().unwrap_or(0);
+            // `unconstrained`: tokio's cooperative budget must not make a non-empty queue look empty
+            // (this driver runs as one never-yielding task, so the budget can be exhausted here)
+            let n = tokio::task::unconstrained(self.delayed.recv_many(&mut buf)).now_or_never().unwrap_or(0);
             if n == 0 {
                 break;
             }
